@@ -3,6 +3,7 @@ import FractopoModel.Spec.Classes
 import FractopoModel.Generated.BranchIdentity
 import FractopoModel.Generated.DegreeToClass
 import FractopoModel.Lemmas.NodeTable
+import FractopoModel.Lemmas.BranchTable
 /-!
 # C05 — node and branch tables are mutually consistent for every input
 
@@ -134,5 +135,26 @@ example :
     let query : Nat → List Nat := fun p => NodeTable.positions (ends bs) p
     Gen.node_identities_from_branches (fun p (_ : Unit) => if p = 3 then 0 else 10) (fun _ _ => 0) query id 0 (ends bs) [()] 1
       = ([0, 1, 2, 3], ["I", "Y", "I", "E"]) := by decide +kernel
+
+/-- **The regenerated branch labelling IS the model's.** `Gen.get_branch_identities` is regenerated from /repo on every
+run (loop over the branches, bounding-box query, `iloc`, distance mask, `compress`, the three counts, the call of the
+regenerated `determine_branch_identity`). Under the law of the query parameter (`BoxLaw`: the candidates are the nodes inside
+some box that contains every node within the threshold) it labels every branch exactly as `Topo.branchLabel` does -- so
+`C05_branch_label` below/above is a statement about the regenerated code. -/
+theorem C05_generated_branch_labels (bquery : Branch P → List Nat) (edist : P → Branch P → Rat) (close : P → P → Bool)
+    (ns : List P) (dflt : P) (cls : P → String) (t : Rat) (brs : List (Branch P))
+    (hclose : ∀ n br, decide (edist n br < t) = (close n br.a || close n br.b))
+    (law : ∀ br ∈ brs, BranchTable.BoxLaw bquery edist ns t br) :
+    Gen.get_branch_identities bquery edist brs (fun i => ns.getD i dflt) (ns.map cls) t
+      = brs.map (branchLabel Gen.determine_branch_identity close ns cls) := by
+  rw [BranchTable.generated_branch_labels bquery edist ns dflt cls t brs law]
+  apply List.map_congr_left
+  intro br _
+  simp only [BranchTable.labelOf, branchLabel, nodesNear, hclose]
+  congr 1
+  apply List.countP_congr
+  intro n _
+  simp only [List.elem]
+  cases h1 : (cls n == "X") <;> cases h2 : (cls n == "Y") <;> simp_all
 
 end C05
